@@ -22,6 +22,10 @@ every collection derived earlier keeps its earlier value; the ones derived later
 compute to their values; every retained NumPy buffer and every block held by a persisted collection is bit-identical to
 its fingerprint taken before the call.  A refusal (dask raises where NumPy accepts) must leave everything unchanged.
 
+A second grid (harness/props_ext/c08_whereout.py, NumPy oracle): where= kind (lower-rank / length-1 / 0-d / NumPy / Python masks)
+× the consumer applied to the result (axis permutations, slices, takes, rechunk, reductions, expand_dims / squeeze,
+broadcast_to, concatenate / stack, elementwise, pairs), with out= none / same dtype / wider dtype and broadcasting operands.
+
 The GRID (xkind × where kind × order/scheduler) is walked completely in every run (all seeds); the remaining
 dimensions (shape, chunks, dtype, ufunc, operand pattern, out= form, np/da, optimisation on/off, extra derivations,
 warm caches, second call) are drawn from ctx.rng per cell.
@@ -633,6 +637,10 @@ def shrink(case, sig):
 
 
 def check_case(ctx, case, do_shrink=True, seen=None):
+    if case.get("whereout"):  # ufunc(where=, out=) under a consumer, NumPy oracle (harness/props_ext/c08_whereout.py)
+        from harness.props_ext import c08_whereout
+
+        return c08_whereout.check_case(ctx, case, "numpy", do_shrink=do_shrink, seen=seen)
     try:
         bad, refusal = run_case(case)
     except Exception as e:  # a harness error must not pass silently
@@ -693,6 +701,12 @@ def search(ctx):
             # one shrunk report per class is enough
             check_case(ctx, case, do_shrink=True, seen=failed)
     ctx.notes["ufunc_scenarios"] = done
+    # ufunc(where=, out=) followed by a consumer the optimizer rewrites through the Elemwise (axis permutations, slices, takes,
+    # rechunk, reductions, expand_dims / squeeze, broadcast_to, concatenate / stack, elementwise, pairs): the grid where= kind x
+    # consumer kind, NumPy as the oracle (the same generator serves C08 with the rewrite-free form as the oracle)
+    from harness.props_ext import c08_whereout
+
+    c08_whereout.search(ctx, "numpy", budget=ctx.scale(15, 120))
     ctx.notes["ufunc_scenario_grid"] = f"{len(XKINDS)} xkinds x {len(WHERES)} where kinds x {len(ORDERS)} (order, scheduler) = {len(cells)} cells per pass"
 
 
